@@ -352,6 +352,7 @@ func (p *Prog) flatten() {
 	/* Calls through an interface declared in the module which exactly one
 	type of the module implements are calls of that type's methods. */
 	impl := map[string]*ssa.Function{}
+	onlyImpl := map[string]types.Type{}
 	resolve := func(recv types.Type, m *types.Func) *ssa.Function {
 		named, ok := recv.(*types.Named)
 		if !ok || nil == named.Obj().Pkg() || !strings.HasPrefix(named.Obj().Pkg().Path(), ModPath) {
@@ -388,7 +389,8 @@ func (p *Prog) flatten() {
 		if 1 == len(found) {
 			f = p.SSA.LookupMethod(found[0], m.Pkg(), m.Name())
 			if nil != f && "" != f.Synthetic {
-				f = nil /* promoted through embedding: leave alone */
+				f = nil /* promoted through embedding: see below */
+				onlyImpl[key] = found[0]
 			}
 		}
 		impl[key] = f
@@ -396,6 +398,40 @@ func (p *Prog) flatten() {
 	}
 	for _, f := range tops {
 		p.Devirt += ssa.Devirtualize(f, resolve)
+	}
+	/* The one implementation has the method from an embedded field (type
+	adapter struct{ *exec.Cmd }): the call is the embedded value's. */
+	resolvePromoted := func(recv types.Type, m *types.Func) (types.Type, []int, *ssa.Function, *types.Func) {
+		named, ok := recv.(*types.Named)
+		if !ok {
+			return nil, nil, nil, nil
+		}
+		resolve(recv, m)
+		T := onlyImpl[named.String()+"."+m.Name()]
+		if nil == T {
+			return nil, nil, nil, nil
+		}
+		sel := types.NewMethodSet(T).Lookup(m.Pkg(), m.Name())
+		if nil == sel || len(sel.Index()) < 2 {
+			return nil, nil, nil, nil
+		}
+		path := sel.Index()[:len(sel.Index())-1]
+		mo, _ := sel.Obj().(*types.Func)
+		if nil == mo {
+			return nil, nil, nil, nil
+		}
+		if rv := mo.Type().(*types.Signature).Recv(); nil != rv {
+			if _, isIface := rv.Type().Underlying().(*types.Interface); isIface {
+				return T, path, nil, mo
+			}
+		}
+		if tf := p.SSA.FuncValue(mo); nil != tf {
+			return T, path, tf, nil
+		}
+		return nil, nil, nil, nil
+	}
+	for _, f := range tops {
+		p.Devirt += ssa.DevirtualizePromoted(f, resolvePromoted)
 	}
 	/* One spelling per operation (len(s) == 0 is s == "", ...). */
 	for _, f := range tops {
@@ -422,6 +458,27 @@ func (p *Prog) flatten() {
 		}
 	}
 	p.Flat = ssa.FlattenAll(tops, isHelper)
+	/* A concrete value put into an interface only to have a method called
+	on it (a helper folded in which takes a one-method interface). */
+	for round := 0; round < 3; round++ {
+		did := 0
+		for _, f := range tops {
+			if !isHelper(f) && nil == f.Parent() {
+				ssa.SpecializeInterfacePhis(f)
+				did += ssa.DevirtualizeKnown(f, func(recv types.Type, m *types.Func) *ssa.Function {
+					return p.SSA.LookupMethod(recv, m.Pkg(), m.Name())
+				})
+			}
+		}
+		if 0 == did {
+			break
+		}
+		p.Devirt += did
+		more := ssa.FlattenAll(tops, isHelper)
+		p.Flat.Inlined += more.Inlined
+		p.Flat.GoTurned += more.GoTurned
+		p.Flat.Bound += more.Bound
+	}
 	/* Variables kept in memory only because a function literal reads them
 	(or did, before it was folded in) become values. */
 	for _, f := range tops {
@@ -475,6 +532,10 @@ func (p *Prog) flatten() {
 	for _, f := range tops {
 		if !isHelper(f) {
 			ssa.SplitLocalStructs(f)
+			if ssa.SplitStructPhis(f) {
+				/* (a struct returned on several paths of a helper folded in) */
+				ssa.SplitLocalStructs(f)
+			}
 			ssa.ForwardStructFields(f)
 		}
 	}
@@ -609,6 +670,9 @@ func (p *Prog) collapseForwarders(tops []*ssa.Function) {
 		for _, i := range f.Blocks[0].Instrs {
 			switch x := i.(type) {
 			case *ssa.Call:
+				if isBackgroundCtx(x) {
+					continue /* context.Background() handed on */
+				}
 				if nil != call {
 					ok = false
 				}
@@ -653,6 +717,9 @@ func (p *Prog) collapseForwarders(tops []*ssa.Function) {
 			continue
 		}
 		/* Where each parameter of f goes. */
+		bgArgs := map[int]bool{}
+		constArgs := map[int]*ssa.Const{}
+		zeroFields := map[int][]int{}
 		from := make([]ssa.ArgFrom, len(f.Params))
 		set := make([]int, len(f.Params))
 		pidx := func(v ssa.Value) int {
@@ -667,6 +734,14 @@ func (p *Prog) collapseForwarders(tops []*ssa.Function) {
 			if k := pidx(a); k >= 0 {
 				from[k] = ssa.ArgFrom{Arg: j, Field: -1}
 				set[k]++
+				continue
+			}
+			if ac, isCall := a.(*ssa.Call); isCall && isBackgroundCtx(ac) {
+				bgArgs[j] = true
+				continue
+			}
+			if _, isC := a.(*ssa.Const); isC {
+				constArgs[j] = a.(*ssa.Const)
 				continue
 			}
 			ld, isLd := a.(*ssa.UnOp)
@@ -719,8 +794,12 @@ func (p *Prog) collapseForwarders(tops []*ssa.Function) {
 					good = false
 				}
 			}
-			if len(covered) != st.NumFields() {
-				good = false
+			/* Fields the forwarder leaves at their zero value: the other
+			callers must leave them so as well (checked per site). */
+			for fk := 0; fk < st.NumFields(); fk++ {
+				if !covered[fk] {
+					zeroFields[j] = append(zeroFields[j], fk)
+				}
 			}
 		}
 		for _, n := range set {
@@ -763,6 +842,47 @@ func (p *Prog) collapseForwarders(tops []*ssa.Function) {
 		}
 		for _, h := range tops {
 			scan(h)
+		}
+		if !good {
+			continue
+		}
+		/* What the forwarder fixes, the other callers must fix the same way. */
+		for _, site := range sites {
+			sa := site.Common().Args
+			for j := range bgArgs {
+				if ac, isCall := sa[j].(*ssa.Call); !isCall || !isBackgroundCtx(ac) {
+					good = false
+				}
+			}
+			for j, c := range constArgs {
+				if st, isSt := c.Type().Underlying().(*types.Struct); isSt && 0 == st.NumFields() {
+					continue /* a value of an empty struct type: there is only one */
+				}
+				if sc, isC := sa[j].(*ssa.Const); !isC || sc.String() != c.String() {
+					good = false
+				}
+			}
+			for j, zs := range zeroFields {
+				ld, isLd := sa[j].(*ssa.UnOp)
+				if !isLd {
+					good = false
+					continue
+				}
+				al, isAl := ld.X.(*ssa.Alloc)
+				if !isAl {
+					good = false
+					continue
+				}
+				for _, r := range *al.Referrers() {
+					if fa, isFA := r.(*ssa.FieldAddr); isFA {
+						for _, zf := range zs {
+							if fa.Field == zf {
+								good = false
+							}
+						}
+					}
+				}
+			}
 		}
 		if !good {
 			continue
@@ -856,6 +976,7 @@ func (p *Prog) stableGlobal(g *ssa.Global) bool {
 	if nil == p.stable {
 		p.stable = map[*ssa.Global]bool{}
 		written := map[*ssa.Global]int{}
+		seenTop := map[*ssa.Function]bool{}
 		var visit func(f *ssa.Function)
 		visit = func(f *ssa.Function) {
 			isInit := "init" == f.Name() || strings.HasPrefix(f.Name(), "init#")
@@ -894,13 +1015,23 @@ func (p *Prog) stableGlobal(g *ssa.Global) bool {
 			if !strings.HasPrefix(pk.Pkg.Path(), ModPath) {
 				continue
 			}
+			ini := pk.Func("init")
 			for _, m := range pk.Members {
-				if f, ok := m.(*ssa.Function); ok {
+				if f, ok := m.(*ssa.Function); ok && f != ini {
 					visit(f)
+					seenTop[f] = true
 				}
 			}
-			if ini := pk.Func("init"); nil != ini {
+			if nil != ini {
 				visit(ini)
+				seenTop[ini] = true
+			}
+		}
+		/* Methods are not members of their package. */
+		for _, f := range p.funcs {
+			if nil == f.Parent() && !seenTop[f] {
+				visit(f)
+				seenTop[f] = true
 			}
 		}
 		p.written = written
@@ -1032,4 +1163,13 @@ func (p *Prog) promoteParams(tops []*ssa.Function) {
 			}
 		}
 	}
+}
+
+
+// isBackgroundCtx: a call of context.Background() or context.TODO().
+func isBackgroundCtx(c *ssa.Call) bool {
+	if sc := c.Common().StaticCallee(); nil != sc && nil != sc.Pkg && "context" == sc.Pkg.Pkg.Path() {
+		return "Background" == sc.Name() || "TODO" == sc.Name()
+	}
+	return false
 }
